@@ -1,109 +1,113 @@
-// Constant translator back end: prints the constants of the face layer as evaluated by the Go compiler for the
-// current tree (through the verif hook), plus the receive-buffer size expression of readTlvStream evaluated from
-// the AST of fw/face/stream-transport.go.  translators/face/gen_consts.py turns the output into coq/Face/GenConsts.v.
+// Constant translator back end (see docs/ROBUST_TRANSLATORS.md): prints the constants of the face layer for the current
+// tree, each obtained from the compiler (through the verif hook fw/face/zz_verif_face.go) or from a behavioural probe of the
+// real code - never from identifier names or the shape of the source text:
+//
+//	hook   MaxNDNPacketSize, congestionMarkOverhead, maxFragCount, headerOverhead_* (the real computeHeaderOverhead)
+//	probe  recvBufSize            = len(p) of the first Read the real readTlvStream issues (the whole receive buffer)
+//	       congestionMarkOverhead = payload bytes a fragment loses when a congestion mark is attached (real sendPacket)
+//	       maxFragCount           = largest FragCount for which the real reassembly opens a store entry
+//
+// Output lines "name value source"; an item that cannot be obtained is simply absent (translators/face/gen_consts.py
+// then keeps the committed reference value and says so).
 package facelp
 
 import (
 	"fmt"
-	"go/ast"
-	"go/parser"
-	"go/token"
+	"io"
 	"os"
-	"path/filepath"
 	"sort"
-	"strconv"
 	"testing"
 
+	defn "github.com/named-data/ndnd/fw/defn"
+	"github.com/named-data/ndnd/fw/dispatch"
 	"github.com/named-data/ndnd/fw/face"
+	enc "github.com/named-data/ndnd/std/encoding"
+	spec "github.com/named-data/ndnd/std/ndn/spec_2022"
+	"github.com/named-data/ndnd/std/utils"
 )
 
-func evalIntExpr(e ast.Expr, consts map[string]int) (int, error) {
-	switch x := e.(type) {
-	case *ast.BasicLit:
-		if x.Kind != token.INT {
-			return 0, fmt.Errorf("non-int literal %s", x.Value)
-		}
-		v, err := strconv.ParseInt(x.Value, 0, 64)
-		return int(v), err
-	case *ast.ParenExpr:
-		return evalIntExpr(x.X, consts)
-	case *ast.SelectorExpr:
-		if v, ok := consts[x.Sel.Name]; ok {
-			return v, nil
-		}
-		return 0, fmt.Errorf("unknown constant %s", x.Sel.Name)
-	case *ast.Ident:
-		if v, ok := consts[x.Name]; ok {
-			return v, nil
-		}
-		return 0, fmt.Errorf("unknown identifier %s", x.Name)
-	case *ast.BinaryExpr:
-		a, err := evalIntExpr(x.X, consts)
-		if err != nil {
-			return 0, err
-		}
-		b, err := evalIntExpr(x.Y, consts)
-		if err != nil {
-			return 0, err
-		}
-		switch x.Op {
-		case token.MUL:
-			return a * b, nil
-		case token.ADD:
-			return a + b, nil
-		case token.SUB:
-			return a - b, nil
-		case token.SHL:
-			return a << uint(b), nil
-		}
-		return 0, fmt.Errorf("unsupported operator %s", x.Op)
+type firstReadProbe struct{ first int }
+
+func (p *firstReadProbe) Read(b []byte) (int, error) {
+	if p.first == 0 {
+		p.first = len(b)
 	}
-	return 0, fmt.Errorf("unsupported expression %T", e)
+	return 0, io.EOF
 }
 
-// recvBufSize finds `recvBuf := make([]byte, <expr>)` in readTlvStream and evaluates <expr>.
-func recvBufSize(repo string, consts map[string]int) (int, error) {
-	fset := token.NewFileSet()
-	f, err := parser.ParseFile(fset, filepath.Join(repo, "fw", "face", "stream-transport.go"), nil, 0)
-	if err != nil {
-		return 0, err
-	}
-	res, found := 0, false
-	var ferr error
-	ast.Inspect(f, func(n ast.Node) bool {
-		fd, ok := n.(*ast.FuncDecl)
-		if !ok || fd.Name.Name != "readTlvStream" {
-			return true
+// probeRecvBufSize: the framer reads into the unused part of its buffer; with nothing buffered that is the whole buffer.
+func probeRecvBufSize() (n int, ok bool) {
+	defer func() {
+		if recover() != nil {
+			ok = false
 		}
-		ast.Inspect(fd.Body, func(m ast.Node) bool {
-			as, ok := m.(*ast.AssignStmt)
-			if !ok || len(as.Lhs) != 1 || len(as.Rhs) != 1 {
-				return true
-			}
-			id, ok := as.Lhs[0].(*ast.Ident)
-			if !ok || id.Name != "recvBuf" {
-				return true
-			}
-			call, ok := as.Rhs[0].(*ast.CallExpr)
-			if !ok || len(call.Args) != 2 {
-				return true
-			}
-			if fn, ok := call.Fun.(*ast.Ident); !ok || fn.Name != "make" {
-				return true
-			}
-			res, ferr = evalIntExpr(call.Args[1], consts)
-			found = true
-			return false
-		})
-		return false
-	})
-	if ferr != nil {
-		return 0, ferr
+	}()
+	p := &firstReadProbe{}
+	face.VerifReadTlvStream(p, func([]byte) {}, nil)
+	return p.first, p.first > 0
+}
+
+func fragLen(frame []byte) int {
+	p, _, err := spec.ReadPacket(enc.NewBufferReader(append([]byte{}, frame...)))
+	if err != nil || p.LpPacket == nil {
+		return -1
 	}
-	if !found {
-		return 0, fmt.Errorf("recvBuf := make([]byte, ...) not found in readTlvStream")
+	return len(p.LpPacket.Fragment.Join())
+}
+
+// probeMarkOverhead: same packet, same MTU, with and without a congestion mark: difference of the first fragment's payload.
+func probeMarkOverhead() (n int, ok bool) {
+	defer func() {
+		if recover() != nil {
+			ok = false
+		}
+	}()
+	first := func(mark *uint64) int {
+		st := face.NewVerifTransport(1500, defn.NonLocal)
+		o := face.MakeNDNLPLinkServiceOptions()
+		snd := face.VerifMakeLinkService(st, o, 55)
+		face.VerifSendPacket(snd, dispatch.OutPkt{Pkt: &defn.Pkt{Raw: patternWire(6000), L3: &spec.Packet{}, CongestionMark: mark}})
+		all := append(append([][]byte{}, st.Frames...), st.Dropped...)
+		if len(all) < 2 {
+			return -1
+		}
+		return fragLen(all[0])
 	}
-	return res, nil
+	a, b := first(nil), first(utils.IdPtr(uint64(1)))
+	if a <= 0 || b <= 0 || a < b {
+		return 0, false
+	}
+	return a - b, true
+}
+
+// probeMaxFragCount: binary search for the largest FragCount that opens an entry in the partial message store.
+func probeMaxFragCount() (n int, ok bool) {
+	defer func() {
+		if recover() != nil {
+			ok = false
+		}
+	}()
+	accepted := func(cnt uint64) bool {
+		rt := face.NewVerifTransport(defn.MaxNDNPacketSize, defn.NonLocal)
+		rcv := face.VerifMakeLinkService(rt, face.MakeNDNLPLinkServiceOptions(), 77)
+		f := encodeLp(&spec.LpPacket{Sequence: utils.IdPtr(uint64(1000)), FragIndex: utils.IdPtr(uint64(1)), FragCount: utils.IdPtr(cnt), Fragment: enc.Wire{[]byte{1}}})
+		face.VerifHandleIncomingFrame(rcv, f)
+		st := face.VerifPartialStore(rcv)
+		return len(st) == 1 && uint64(len(st[0].Slots)) == cnt
+	}
+	if !accepted(2) || accepted(1<<16) {
+		return 0, false
+	}
+	lo, hi := 2, 1<<16 // accepted(lo), !accepted(hi)
+	for hi-lo > 1 {
+		mid := (lo + hi) / 2
+		if accepted(uint64(mid)) {
+			lo = mid
+		} else {
+			hi = mid
+		}
+	}
+	return lo, true
 }
 
 func TestPrintConsts(t *testing.T) {
@@ -111,16 +115,39 @@ func TestPrintConsts(t *testing.T) {
 	if out == "" {
 		t.Skip("VERIF_OUT not set")
 	}
-	repo := os.Getenv("VERIF_REPO_DIR")
-	if repo == "" {
-		repo = "/repo"
+	lpSetup()
+	setThreads(1)
+	type item struct {
+		v   int
+		src string
 	}
-	m := face.VerifFaceConsts()
-	sz, err := recvBufSize(repo, m)
-	if err != nil {
-		t.Fatalf("recv buffer size: %v", err)
+	m := map[string]item{}
+	func() {
+		defer func() { recover() }()
+		for k, v := range face.VerifFaceConsts() {
+			m[k] = item{v, "hook"}
+		}
+	}()
+	if v, ok := probeRecvBufSize(); ok {
+		m["recvBufSize"] = item{v, "probe"}
 	}
-	m["recvBufSize"] = sz
+	if _, have := m["congestionMarkOverhead"]; !have {
+		if v, ok := probeMarkOverhead(); ok {
+			m["congestionMarkOverhead"] = item{v, "probe"}
+		}
+	}
+	if _, have := m["maxFragCount"]; !have {
+		if v, ok := probeMaxFragCount(); ok {
+			m["maxFragCount"] = item{v, "probe"}
+		}
+	}
+	// the probes are also run for cross-checking: reported as separate items, never an alarm by themselves
+	if v, ok := probeMarkOverhead(); ok {
+		m["probe_congestionMarkOverhead"] = item{v, "probe"}
+	}
+	if v, ok := probeMaxFragCount(); ok {
+		m["probe_maxFragCount"] = item{v, "probe"}
+	}
 	keys := make([]string, 0, len(m))
 	for k := range m {
 		keys = append(keys, k)
@@ -132,6 +159,6 @@ func TestPrintConsts(t *testing.T) {
 	}
 	defer f.Close()
 	for _, k := range keys {
-		fmt.Fprintf(f, "%s %d\n", k, m[k])
+		fmt.Fprintf(f, "%s %d %s\n", k, m[k].v, m[k].src)
 	}
 }
